@@ -2256,3 +2256,7 @@ m("C11", "valueless-attribute-plain-value", "parser.py",
 m("C11", "syntax-error-reported-with-working-copy", "tales.py",
   "            raise ExpressionError(exc.msg, stripped)",
   "            raise ExpressionError(exc.msg, string)")
+
+m("C12", "formatter-reopens-file-strictly", "exc.py",
+  "                    f = open(filename, errors='replace')\n",
+  "                    f = open(filename)\n")
